@@ -39,7 +39,7 @@ META = {
                     "(true of `*`, `@` and the group products; a user `ops` that mixes positions, e.g. b.flip(0), is outside the theorems)"],
     "partial": ["floating-point group products are not exactly associative: for the four group types the theorems apply to the exact "
                 "model (192-bit execution, real-number proofs); the float result is compared with the ordered fold within 64*eps*L per "
-                "block — a measured re-association error, not a proved bound. For exact monoids (integer matrices mod p, the free "
+                "block (measured). The SHAPE of that error is a theorem (`cumops_approx`, `cumops_approx_nonexpansive`: an eps-associative, Lambda-Lipschitz-up-to-delta product gives a scan within scanErr(Lambda, eps, delta, L) <= rounds*2L*(eps+delta) of the fold) whose hypotheses about the rounded SO3 product are measured on the scanned data (`approx` stream), not proved of torch. For exact monoids (integer matrices mod p, the free "
                 "monoid) the property's word 'exactly' is decided exactly."],
 }
 
@@ -839,6 +839,85 @@ def run(ctx: Ctx):
                       "dtype": rng.choice(["float64", "float64", "float32"]), "data_seed": rng.randrange(1 << 30),
                       "negdim": rng.random() < 0.3, "view": rng.choice(VIEWS)})
     run_lie(ctx, cases)
+    run_approx(ctx)
+
+
+# ----------------------------------------------------------------------------- approx stream (theorem cumops_approx)
+
+def scan_err_bound(lam, eps, delta, L):
+    """`scanErr lam eps delta L` of Proofs/Lemmas/ScanApprox.lean (same recursion, python floats)"""
+    def reassoc(m):
+        a = 0.0
+        for _ in range(m):
+            a = (eps + delta) + lam * a
+        return a
+    E, p = 0.0, 1
+    while p < L:
+        E = 2 * lam * E + 2 * delta + reassoc(p - 1)
+        p *= 2
+    return E
+
+
+def run_approx(ctx: Ctx):
+    """The float product of unit quaternions is only approximately associative. Theorem `cumops_approx`: in the chordal
+    metric d(p, q) = min(|p - q|, |p + q|), if the rounded product is Lambda-Lipschitz up to an additive delta in each
+    argument and associative up to eps, the scan is within scanErr(Lambda, eps, delta, L) of the ordered fold. Here the
+    hypotheses are MEASURED on operands taken from the scanned data and its partial products (a hypothesis that fails is a
+    broken correspondence: the a-priori constants below no longer describe the product), and the real scan is compared
+    with the real sequential fold against the theorem's bound (a concrete failing input otherwise)."""
+    rng = ctx.rng
+    P = pp()
+    for dtype in ("float64", "float32"):
+        u = common.EPS[dtype]
+        D = getattr(torch, dtype)
+        for L in ([2, 3, 9, 33, 130] if ctx.quick else [2, 3, 5, 9, 17, 33, 65, 130, 257, 600, 1025]):
+            for left in (False, True):
+                g = torch.Generator().manual_seed(rng.randrange(1 << 30))
+                q = torch.randn(L, 4, generator=g, dtype=torch.float64)
+                q = (q / q.norm(dim=-1, keepdim=True)).to(D)
+                case = {"stream": "approx", "type": "SO3", "dtype": dtype, "L": L, "left": left, "X": q.double().tolist()}
+                X = P.LieTensor(q, ltype=P.SO3_type)
+                lam, eps_a, delta = 1 + 4 * (L + 4) * u, 16 * u, 16 * u
+                bound = scan_err_bound(lam, eps_a, delta, L)
+                ctx.note_case(("approx", dtype, L, left), L >= 3)
+                ctx.count(f"approx.{dtype}")
+                try:
+                    Y = P.cumprod(X, 0, left=left)
+                    want = seq_fold(X, 0, lambda a, b: a @ b, left)
+                except Exception as e:
+                    ctx.fail(case, f"raises: cumprod on SO3 L={L}: {type(e).__name__}: {str(e)[:100]}")
+                    continue
+                op = (lambda a, b: b @ a) if left else (lambda a, b: a @ b)
+                dist = lambda a, b: torch.minimum((a.tensor().double() - b.tensor().double()).norm(dim=-1),
+                                                  (a.tensor().double() + b.tensor().double()).norm(dim=-1))
+                if not bool(torch.isfinite(Y.tensor()).all()):
+                    ctx.fail(case, f"non-finite: cumprod of {L} unit quaternions ({dtype}) returned a non-finite value")
+                    continue
+                # hypotheses on operands drawn from the data and the partial products (what the scan actually multiplies)
+                pool = torch.cat([X.tensor(), want.tensor(), Y.tensor()], 0)
+                k = min(64, 3 * L)
+                ia, ib, ic = (torch.randint(0, pool.shape[0], (k,), generator=g) for _ in range(3))
+                A, B, C = (P.LieTensor(pool[i], ltype=P.SO3_type) for i in (ia, ib, ic))
+                norms = pool.double().norm(dim=-1)
+                if not bool((norms <= lam).all()) or not bool((norms >= 2 - lam).all()):
+                    ctx.disagree("approx", case, f"hypothesis: operand norms leave [2-Lambda, Lambda] (max {float(norms.max()):.17g})")
+                    continue
+                assoc = dist(op(op(A, B), C), op(A, op(B, C)))
+                lipl = dist(op(A, C), op(B, C)) - lam * dist(A, B)
+                lipr = dist(op(C, A), op(C, B)) - lam * dist(A, B)
+                hyp_bad = [nm for nm, val, lim in (("assoc", assoc, eps_a), ("lipL", lipl, delta), ("lipR", lipr, delta))
+                           if not bool((val <= lim).all())]
+                if hyp_bad:
+                    ctx.disagree("approx", case, f"hypothesis of cumops_approx not met by the {dtype} SO3 product: {hyp_bad} "
+                                                 f"(assoc {float(assoc.max()) / u:.1f} u, lipL {float(lipl.max()) / u:.1f} u, lipR {float(lipr.max()) / u:.1f} u)")
+                    continue
+                err = dist(Y, want)
+                if not bool((err <= bound).all()):
+                    j = int(err.argmax())
+                    ctx.fail(case, f"approx: cumprod(left={left}) of {L} unit quaternions ({dtype}) is {float(err.max()) / u:.1f} u from the "
+                                   f"sequential fold at position {j}; theorem cumops_approx allows {bound / u:.1f} u")
+                ctx.sample({"stream": "approx", "dtype": dtype, "L": L, "left": left, "observed_u": float(err.max()) / u,
+                            "theorem_bound_u": bound / u, "assoc_u": float(assoc.max()) / u}, cap=12)
 
 
 def search(ctx: Ctx):
